@@ -87,4 +87,28 @@ theorem fault_recovers (C : Crypto) (hC : HashWF C) (hS : SignWF C) (hTw : TreeW
 
 end Model
 
+/-- **a storage error during a proof application on a replica**: for every replica state that satisfies the invariants
+    (every state of `C02.replica_survives_crashes`), every honest act and every position `k` of the failing storage
+    operation, dropping the instance and reopening the stores succeeds and shows the replica before the application or
+    after it, with the invariants re-established -/
+theorem replica_fault_recovers (C : Crypto) (hC : TreeStore.HashWF C) (hT : TreeStore.TreeWF C) (bs : Array Bytes) (m : Nat) (c : Core) (d : Disk)
+    (held : Nat → Bool) (h : ReplicaReopen.RP C bs m c d held) (hm0 : 0 < m) (a : HashReq.Act)
+    (hok : HashReq.OkActs C bs c.publicKey c.tree.fork m [a]) (k : Nat) :
+    let df := (withFault d (c.verifyAndApply C d (HashReq.actProof C bs c d a)).journal k).disk
+    ∃ c' j, Core.openCore C none df = .ok (c', j) ∧ c'.publicKey = c.publicKey
+      ∧ ((C02.Shows bs m held c' (df.applyAll j) ∧ ReplicaReopen.RP C bs m c' (df.applyAll j) held)
+        ∨ (C02.Shows bs (HashReq.lenAfter m [a]) (fun i => held i || HashReq.fetched [a] i) c' (df.applyAll j)
+            ∧ ReplicaReopen.RP C bs (HashReq.lenAfter m [a]) c' (df.applyAll j) (fun i => held i || HashReq.fetched [a] i))) := by
+  intro df
+  have hd : df = d.applyAll ((c.verifyAndApply C d (HashReq.actProof C bs c d a)).journal.take k) := by
+    show (withFault d _ k).disk = _
+    unfold withFault
+    split
+    · rfl
+    · rw [List.take_of_length_le (by omega)]
+  obtain ⟨c', j, r1, r2, _, r4⟩ := C02.replica_crash_atomic C hC hT bs m c d held h hm0 a hok k
+  try simp only [] at r1 r4
+  rw [← hd] at r1 r4
+  exact ⟨c', j, r1, r2, r4⟩
+
 end HC.C10
